@@ -28,7 +28,7 @@ from .e1_srcmodel import qualname_of
 from .c09_terms import World, Unsup, is_tag, is_const, subterms, contains, show, NONE, ZEROS, EMPTY
 from .c09_blocks import norm as bnorm, fragile, Facts, length_of, _lin_parts
 from .c09_chunks import expand_calls, search
-from .c09_facts import consistent, unfollowed, soft_terms, diff_pairs
+from .c09_facts import consistent, unfollowed, soft_terms, diff_pairs, rigid_difference, selector_functions
 from .c09_run import (explore, join_index, live_in, compatible, equal_mod_alloc, diff_text, resolve, mode_atoms, extend_join, first_use, tail_test,
                       READ, MAYREAD)
 
@@ -736,7 +736,7 @@ def _judge(p, s, rp, rs, up, us, depth=0):
     diff_pairs(vp, vs, pairs)
     # what stands for the evaluator's representation on one side only of a differing pair (the same merged conditional / starred sequence at the
     # same place on both sides is not a difference)
-    one_sided = [x for a, b in pairs for x in soft_terms(a) ^ soft_terms(b)]
+    one_sided = [x for a, b in pairs if not rigid_difference(a, b) for x in soft_terms(a) ^ soft_terms(b)]
     conds = []
     for x in one_sided:
         if is_tag(x, "phi") and x[1] not in conds:
@@ -919,7 +919,7 @@ def r5_serial_equals_worker(ctx):
                 # ... except the function whose result selects the mode: the comparison is between what the two modes compute for the same
                 # inputs otherwise, so the selector stays the one symbol both sides share (what it reports - `parallel`, `ncpu` - differs
                 # between the modes by design)
-                w2.keep_opaque = {f for a in mode_atoms(leaves) for f in unfollowed(a)}
+                w2.keep_opaque = {f for a in mode_atoms(leaves) for f in selector_functions(a)}
                 fn2, K2, live2, leaves2 = _entry_leaves(w2, rel, q)
                 res = _compare_entry(w2, q, rel, fn2, K2, live2, leaves2)
             except (Unsup, AnchorError, RecursionError) as e:
